@@ -45,6 +45,32 @@ Theorem C03_round_robin_step : forall s id rest, act s = id :: rest -> sq s <> 0
 Proof. exact c03_round_robin. Qed.
 Print Assumptions C03_round_robin_step.
 
+(* Fairness (ranking).  before id a = the streams queued ahead of id in activeStreams; a "serving"
+   processData call is one that finds sendQuota <> 0 and a non-empty list (it dequeues the head);
+   service id s ops = (heads served before the call that serves id, whether that call occurs).
+   For every reachable state and every well-formed item list of any length in which no item
+   closes id (cleanupStream / trailers for id): the streams served while id waits are pairwise
+   distinct and were all ahead of id - no stream is served twice between two services of id, at
+   most k = |before| services precede id's - and once ops contains more than k serving calls id
+   has been served: the stream at position k is served by the (k+1)-th next serving processData
+   at the latest (exactly the (k+1)-th unless a stream ahead of it is closed meanwhile). *)
+Theorem C03_round_robin_fairness : forall ops s id,
+  Inv3 s -> forallb op_wf ops = true -> forallb (fun o => negb (closes id o)) ops = true -> In id (act s) ->
+  NoDup (fst (service id s ops)) /\ incl (fst (service id s ops)) (before id (act s)) /\
+  ((length (before id (act s)) < servings s ops)%nat -> snd (service id s ops) = true).
+Proof. exact c03_fair. Qed.
+Print Assumptions C03_round_robin_fairness.
+
+Theorem C03_round_robin_fairness_reachable : forall sd pre ops id,
+  forallb op_wf pre = true -> forallb op_wf ops = true ->
+  forallb (fun o => negb (closes id o)) ops = true ->
+  let s := final (init sd) false pre in
+  In id (act s) ->
+  NoDup (fst (service id s ops)) /\ incl (fst (service id s ops)) (before id (act s)) /\
+  ((length (before id (act s)) < servings s ops)%nat -> snd (service id s ops) = true).
+Proof. exact c03_fair_reachable. Qed.
+Print Assumptions C03_round_robin_fairness_reachable.
+
 Theorem C03_holds_on_every_model_trace : forall cfg ops, case_wf cfg ops = true ->
   exists obs, run cfg ops = Some obs /\ holds_C03 ops obs = true.
 Proof. exact c03_bridge. Qed.
